@@ -30,6 +30,6 @@ def main(tier, only=None):
     import os
     from .. import runner as _r
 
-    os.environ["VF_EXTRA_RESULTS"] = "vf.props.lapack_probe"
+    os.environ["VF_EXTRA_RESULTS"] = "vf.props.lapack_probe,vf.props.pinned_nested"
     return _grid_main(tier, only=only)
 
